@@ -31,9 +31,10 @@ Which system the code is (`Cfg`) is measured on the real handler by the harness 
 translator harness/translators/save_lock.py independently says whether one lock spans check, round trip and commit
 (`OPM.Gen.SaveLock.lockAcrossAwait`, used by the theorem `code_holds_lock`).
 
-Abstractions: one engine id (lock and version are per engine id); a request is (id, base version) — its content is
-represented by its id (`owner` = whose content is `engine_data.method`; none = the initial method / the lines the
-engine sent after re-registering); the engine answers what the schedule says (ok / error); reply and commit are one
+Abstractions: one engine id (lock and version are per engine id); a request is (id, base version, content); the
+content plays no part in whether a save is accepted — in the code as in the model the decision is the version check
+alone, and every accepted save raises the version by one, also one that changes nothing (`owner` = whose save
+`engine_data.method` is; `content` = what it says; none = the empty method of fresh engine data); the engine answers what the schedule says (ok / error); reply and commit are one
 step (a disconnect squeezed between the arrival of the answer and the commit — `engine_data is None` at the commit,
 the save is answered as accepted and nothing is stored — is not modelled).  Core Lean only.
 -/
@@ -42,6 +43,7 @@ namespace OPM.SaveConc
 structure Req where
   id : Nat
   base : Nat          -- method.version of the posted method = the version the edit was based on
+  content : Nat := 0  -- what the posted method says (a small alphabet; equal numbers = identical lines)
 deriving Repr, DecidableEq
 
 inductive Outcome where
@@ -60,7 +62,8 @@ structure State where
   version : Nat                       -- engine_data.method.version (of the current or, while away, the last engine data)
   registered : Bool := true           -- engine_id ∈ _engine_data_map
   reconnects : Nat := 0               -- number of re-registrations so far
-  owner : Option Nat := none          -- id of the save whose content is engine_data.method
+  owner : Option Nat := none          -- id of the save that engine_data.method came from (its last_author)
+  content : Option Nat := some 0      -- what engine_data.method says (none = the empty method of fresh engine data)
   awaiting : List Req := []           -- requests suspended in the engine round trip
   doomed : List Nat := []             -- ids of round trips that were in flight when the connection dropped
   waiters : List Req := []            -- requests blocked on the lock, FIFO
@@ -70,7 +73,7 @@ structure State where
 deriving Repr, DecidableEq
 
 inductive Ev where
-  | start (id base : Nat)
+  | start (id base : Nat) (content : Nat := 0)
   | reply (id : Nat) (ok : Bool)
   | disconnect
   | register
@@ -95,13 +98,13 @@ def settle (s : State) : List Req → State
 
 /-- One atomic step; `none` = the event is not enabled in this state. -/
 def step (c : Cfg) (s : State) : Ev → Option State
-  | .start id base =>
+  | .start id base content =>
     if known s id then none
     else if !s.registered then some { s with results := s.results ++ [(id, .rejected)] }   -- route: 404
     else if c.locked && !s.awaiting.isEmpty then
       if c.precheck && base ≠ s.version then some { s with results := s.results ++ [(id, .rejected)] }
-      else some { s with waiters := s.waiters ++ [⟨id, base⟩] }
-    else some (enter s ⟨id, base⟩)
+      else some { s with waiters := s.waiters ++ [⟨id, base, content⟩] }
+    else some (enter s ⟨id, base, content⟩)
   | .reply id ok =>
     match s.awaiting.find? (·.id == id) with
     | none => none
@@ -110,13 +113,13 @@ def step (c : Cfg) (s : State) : Ev → Option State
       else
         let s₁ := { s with awaiting := s.awaiting.filter (·.id != id), doomed := s.doomed.filter (· != id) }
         let s₂ : State :=
-          if ok then { s₁ with version := r.base + 1, owner := some r.id, accepted := s₁.accepted ++ [r],
+          if ok then { s₁ with version := r.base + 1, owner := some r.id, content := some r.content, accepted := s₁.accepted ++ [r],
                                results := s₁.results ++ [(r.id, .accepted (r.base + 1))] }
           else { s₁ with results := s₁.results ++ [(r.id, .failed)] }
         some (if c.locked then settle s₂ s₂.waiters else s₂)
   | .disconnect =>
     if !s.registered then none
-    else some { s with registered := false, owner := none, doomed := s.doomed ++ s.awaiting.map (·.id) }
+    else some { s with registered := false, owner := none, content := none, doomed := s.doomed ++ s.awaiting.map (·.id) }
   | .register =>
     if s.registered then none
     else some { s with registered := true, reconnects := s.reconnects + 1, owner := none,
